@@ -288,12 +288,18 @@ env_reap_run(void)
 }
 
 /* ---- start / abort / finish ------------------------------------------- */
+/* "the operation has finished, its result is final until the aio is reset or started again": an abort
+ * arriving then has no effect (real aio.c: a_done, decided on the real code by the C02 schedules).  The
+ * model keeps its own latch in a field of the structure that it does not use otherwise (a_expiring: the
+ * model has no expiry thread holding aios), so that it does not depend on how the real aio.c names its own. */
+#define ENV_DONE(aio) ((aio)->a_expiring)
 void
 nni_aio_reset(nni_aio *aio)
 {
 	aio->a_result           = NNG_OK;
 	aio->a_count            = 0;
 	aio->a_abort            = false;
+	ENV_DONE(aio)           = false;
 	aio->a_expire_ok        = false;
 	aio->a_sleep            = false;
 	aio->a_skipped_callback = NULL;
@@ -344,21 +350,25 @@ nni_aio_start(nni_aio *aio, nni_aio_cancel_fn cancel, void *data)
 		aio->a_expire_ok = false;
 		aio->a_count     = 0;
 		aio->a_result    = NNG_ESTOPPED;
+		ENV_DONE(aio)    = true;
 		env_complete(aio);
 		return (false);
 	}
 	if (aio->a_abort) {
 		aio->a_sleep     = false;
 		aio->a_abort     = false;
+		ENV_DONE(aio)    = true;
 		aio->a_expire_ok = false;
 		aio->a_count     = 0;
 		env_complete(aio);
 		return (false);
 	}
 	aio->a_result = NNG_OK;
+	ENV_DONE(aio) = false;
 	if (timeout) {
 		aio->a_sleep     = false;
 		aio->a_result    = aio->a_expire_ok ? NNG_OK : NNG_ETIMEDOUT;
+		ENV_DONE(aio)    = true;
 		aio->a_expire_ok = false;
 		aio->a_count     = 0;
 		env_complete(aio);
@@ -379,8 +389,10 @@ nni_aio_abort(nni_aio *aio, nng_err rv)
 		aio->a_cancel_fn      = NULL;
 		aio->a_cancel_arg     = NULL;
 		if (fn == NULL) {
-			aio->a_abort  = true;
-			aio->a_result = rv;
+			if (!ENV_DONE(aio)) {
+				aio->a_abort  = true;
+				aio->a_result = rv;
+			}
 		} else {
 			fn(aio, arg, rv);
 		}
@@ -404,6 +416,7 @@ env_aio_expire(nni_aio *aio)
 	aio->a_cancel_arg     = NULL;
 	if (aio->a_sleep) {
 		aio->a_result = rv;
+		ENV_DONE(aio) = true;
 		aio->a_sleep  = false;
 		env_complete(aio);
 	} else if (fn != NULL) {
@@ -417,6 +430,7 @@ env_finish_impl(nni_aio *aio, nng_err rv, size_t count, nni_msg *msg)
 	bool *skipped_cb;
 	aio->a_result     = rv;
 	aio->a_count      = count;
+	ENV_DONE(aio)     = true;
 	aio->a_cancel_fn  = NULL;
 	aio->a_cancel_arg = NULL;
 	if (msg) {
